@@ -143,18 +143,47 @@ def convert_model(f, fa, cls=None):
     Two spellings are read: membership tests on literal sets of type words guarding int()/float() calls, and a literal table from type
     words to the builtins int / float whose entry is called."""
     out = []
-    # (A) if typ in {..}: ... int(x) / [int(v) for v in x]
-    for n in walk_local(f.node):
-        if isinstance(n, ast.If) and isinstance(n.test, ast.Compare) and len(n.test.ops) == 1 and isinstance(n.test.ops[0], ast.In):
-            s_ = const_set(fa.deep(n.test.comparators[0]))
-            if s_ is None:
-                continue
-            for c in walk_local(n):
-                if isinstance(c, ast.Call) and isinstance(c.func, ast.Name) and c.func.id in ('int', 'float') \
-                        and any(c is x for b_ in n.body for x in ast.walk(b_)):
-                    arg = c.args[0] if c.args else None
-                    out.append((s_, c.func.id, any(isinstance(a, (ast.ListComp, ast.GeneratorExp)) for a in ancestors(c)),
-                                isinstance(arg, ast.Name) and len(c.args) == 1 and not c.keywords, c, n))
+    # (A) int(x) / [int(v) for v in x] reached under `typ in {..}`; or caster(x) with `caster = int` bound under that test.  The set of
+    #     type words is the membership test the call (or the binding of the caster) is reached under - as an enclosing if, an elif, or
+    #     the fall-through after an early return; the set itself a display, set([...]), frozenset((...)), local or module constant.
+    def word_set(e):
+        v = fa.deep(e)
+        s_ = const_set(v)
+        if s_ is None and isinstance(v, ast.Name) and v.id in f.module.assigns and not any(
+                isinstance(x, ast.Name) and x.id == v.id and isinstance(x.ctx, ast.Store) for x in walk_local(f.node)):
+            s_ = const_set(f.module.assigns[v.id])
+        return s_
+
+    def governing_set(node):
+        for t0, pol0 in path_conditions(node):
+            t_, pol = t0, pol0
+            while isinstance(t_, ast.UnaryOp) and isinstance(t_.op, ast.Not):
+                t_, pol = t_.operand, not pol
+            if isinstance(t_, ast.Compare) and len(t_.ops) == 1 and isinstance(t_.ops[0], (ast.In, ast.NotIn)) \
+                    and pol == isinstance(t_.ops[0], ast.In):
+                s_ = word_set(t_.comparators[0])            # resolved on the original nodes
+                if s_ is not None:
+                    return s_, t0
+        return None, None
+    for c in walk_local(f.node):
+        if not (isinstance(c, ast.Call) and isinstance(c.func, ast.Name) and not c.keywords and len(c.args) == 1):
+            continue
+        arg = c.args[0]
+        elementwise = any(isinstance(a, (ast.ListComp, ast.GeneratorExp)) for a in ancestors(c))
+        direct = isinstance(arg, ast.Name)
+        if c.func.id in ('int', 'float') and not any(d is not None for d, v in fa.defs(c.func)):
+            s_, anchor = governing_set(c)
+            if s_ is not None:
+                out.append((s_, c.func.id, elementwise, direct, c, anchor))
+            continue
+        ds = fa.defs(c.func)
+        if ds and all(d is not None and isinstance(v, ast.Name) and v.id in ('int', 'float') for d, v in ds):
+            for d, v in ds:
+                s_, anchor = governing_set(d)
+                if s_ is None:
+                    raise AnalysisError('C01: convert() binds its converter `%s = %s` outside a membership test on literal type words: not an idiom this '
+                                        'checker can judge' % (c.func.id, v.id))
+                out.append((s_, v.id, elementwise, direct, c, anchor))
     if out:
         return out
     # (B) table = {'short': int, ..., 'double': float};  table[typ](x)   -- the table a local or a class attribute, an entry fetched by
